@@ -404,6 +404,7 @@ func (r *Run) Parallel(n int, what string, f func(i int)) {
 				t0 := time.Now()
 				f(i)
 				r.End(id)
+				noteDone(time.Since(t0))
 				if d := time.Since(t0).Seconds(); d > 1 {
 					r.mu.Lock()
 					if d > r.maxCase[what] {
@@ -567,6 +568,18 @@ var (
 	wdLimit = 30 * time.Second
 )
 
+// slowestDone is the duration (ns) of the slowest guarded case that has completed.
+var slowestDone int64
+
+func noteDone(d time.Duration) {
+	for {
+		cur := atomic.LoadInt64(&slowestDone)
+		if int64(d) <= cur || atomic.CompareAndSwapInt64(&slowestDone, cur, int64(d)) {
+			return
+		}
+	}
+}
+
 // Begin registers a running case with the watchdog.
 func (r *Run) Begin(c Case, stallSig string) int64 { return r.BeginLimit(c, stallSig, wdLimit) }
 
@@ -579,7 +592,13 @@ func (r *Run) BeginLimit(c Case, stallSig string, limit time.Duration) int64 {
 				wdMu.Lock()
 				var stuck *openCase
 				for _, oc := range wdOpen {
-					if time.Since(oc.since) > oc.limit {
+					// the limit adapts to the machine: never less than 40 times the slowest case
+					// that has completed so far (a loaded machine slows every case alike)
+					lim := oc.limit
+					if m := time.Duration(atomic.LoadInt64(&slowestDone)) * 40; m > lim {
+						lim = m
+					}
+					if time.Since(oc.since) > lim {
 						stuck = oc
 						break
 					}
